@@ -149,7 +149,8 @@ WRONG_PASSWORDS = [
     ("binary-ff", b"\xff"), ("binary-ff-suffix", PASSWORD + b"\xff"), ("latin1-e", "s3cr\u00e9t-Pw".encode("latin-1")),
     ("decomposed-e", "s3crét-Pw".encode("utf-8")), ("overlong", PASSWORD.replace(b"-", b"\xc0\xad")), ("ascii-e", b"s3cret-Pw"),
     ("very-long", PASSWORD * 3000), ("crlf", PASSWORD + b"\r\n"), ("quoted", b'"' + PASSWORD + b'"'), ("default", b"default"),
-]
+    ("doubled", PASSWORD + PASSWORD), ("suffix-lf", PASSWORD + b"\n"), ("one-byte-off", PASSWORD[:-1] + bytes([PASSWORD[-1] ^ 1])),
+] + [("prefix-len%d" % k, PASSWORD[:k]) for k in range(2, len(PASSWORD) - 1)]      # with "empty", "prefix1", "prefix": EVERY proper prefix
 
 
 # ------------------------------------------------------------------------------------------ the check
@@ -166,6 +167,7 @@ class C17:
         kv = dict(x.split("=", 1) for x in self.tables.split(" "))
         self.pre_gate = [unhx(x) for x in kv["preGate"].split("|")] if kv["preGate"] != "." else []
         self.guarded = [unhx(x) for x in kv["guarded"].split("|")] if kv["guarded"] != "." else []
+        self.unknown = [unhx(x) for x in kv["unknown"].split("|")] if kv.get("unknown", ".") != "." else []
         self.allow = [unhx(x.split(":")[0]) for x in kv["allow"].split("|")] if kv["allow"] != "." else []
         self.names = [unhx(x).decode() for x in self.ask("names").split("|")]
         self.oracle_failures, self.disagreements = [], []
@@ -315,6 +317,28 @@ class C17:
         return out, len(rdb), pushed
 
     def run_case(self, case):
+        """A case never raises for something the SERVER did: if the control connection or the server is lost while
+        the case runs (an unauthenticated connection shut it down, killed the client, made it a replica, wedged
+        it ...) that is an oracle failure of this case; a new server, control connection and model state are set up."""
+        self.cur = None
+        try:
+            return self._run_case(case)
+        except (OSError, Closed, ProtocolError) as e:
+            rec = self.cur or {"case": {"tag": case["tag"], "pre": [q.to_json() for q in case["pre"]], "other_auth": case.get("other_auth", False),
+                                        "pipe": [q.to_json() for q in case["pipe"]], "target": case["target"], "cuts": case.get("cuts", [])},
+                               "impl": [], "code": [], "spec": [], "problems": []}
+            alive = self.srv.alive()
+            rec["problems"].append({"kind": "oracle", "lost": True,
+                                    "why": "the %s was lost while an unauthenticated connection's requests ran (%s: %s)%s" % (
+                                        "control connection" if alive else "server", type(e).__name__, e,
+                                        "" if alive else " — server log: " + self.srv.log_tail(300))})
+            rec["stopped"] = "lost"
+            self.rep.evaluations += 1
+            self.rep.count("case.control-or-server-lost")
+            self.start_server()
+            return rec
+
+    def _run_case(self, case):
         """case: {"pre": [Req...] sent one by one first, "other_auth": bool, "pipe": [Req...] sent in one write,
         "target": index into pipe of the request under test, "tag": ...}.  Returns a record."""
         rep = self.rep
@@ -329,6 +353,7 @@ class C17:
         rec = {"case": {"tag": case["tag"], "pre": [q.to_json() for q in case["pre"]], "other_auth": case.get("other_auth", False),
                         "pipe": [q.to_json() for q in case["pipe"]], "target": case["target"], "cuts": case.get("cuts", [])},
                "impl": [], "code": [], "spec": [], "problems": []}
+        self.cur = rec
         leaked_here = 0
         received = []                                  # every frame this unauthenticated connection ever got
         try:
@@ -345,6 +370,12 @@ class C17:
                 cls, nleak, pushed = self.classify_frames([q], frames)
                 self.compare(rec, [q], cls, nleak, pushed, how, [m.split(" # ")[0]], [m.split(" # ")[1]], stage="pre")
                 leaked_here += nleak
+                if any(p["kind"] == "oracle" for p in rec["problems"]):
+                    # the situation itself is already a failure (e.g. a wrong password authenticated): nothing hostile is
+                    # sent on a connection that may have more rights than it should — the replay stays minimal
+                    rec["stopped"] = "pre"
+                    rep.evaluations += 1
+                    return rec
             # -- another connection authenticates meanwhile
             if case.get("other_auth"):
                 o = self.srv.client()
@@ -400,8 +431,9 @@ class C17:
             exp = list(self.baseline)
             diff = [(a, b) for a, b in zip(exp, obs) if a != b]
             known_repl = []
+            unknown = "unknown" in code
             for a, b in diff:
-                if a[0] == "connected_slaves" and b[1] == model_replicas and b[1] == a[1] + leaked_here and leaked_here > 0:
+                if not unknown and a[0] == "connected_slaves" and b[1] == model_replicas and b[1] == a[1] + leaked_here and leaked_here > 0:
                     known_repl.append((a, b))           # the model registers the same replicas: part of the leak
             real = [d for d in diff if d not in known_repl]
             if real:
@@ -410,7 +442,7 @@ class C17:
                 self.restore()
             if known_repl or leaked_here:
                 self.baseline = obs if not real else self.baseline
-                if obs[-2][1] != model_replicas:
+                if obs[-2][1] != model_replicas and not unknown:
                     rec["problems"].append({"kind": "model", "why": "replica count: impl %r, model %d" % (obs[-2][1], model_replicas)})
             # -- no canary byte may ever reach an unauthenticated connection
             blob = repr(received).encode("latin-1", "replace")
@@ -445,21 +477,24 @@ class C17:
                 rec["problems"].append({"kind": "oracle", "why": "request of an unauthenticated connection not refused", "stage": stage, "index": i,
                                         "request": q.text(), "name": hx(q.name) if q.name is not None else None, "impl": a, "spec": v})
             if v == "auth-fail" and not a.startswith("err"):
-                rec["problems"].append({"kind": "oracle", "why": "AUTH without the exact password was not refused", "stage": stage, "index": i,
+                rec["problems"].append({"kind": "oracle", "why": ("a wrong password authenticated: %s" % q.text()[:120]) if a == "ok" else
+                                        "AUTH without the exact password was not refused (%s)" % a, "stage": stage, "index": i,
                                         "request": q.text(), "name": hx(q.name), "impl": a, "spec": v})
             if v == "auth-ok" and a != "ok":
                 rec["problems"].append({"kind": "oracle", "why": "the exact password does not authenticate", "stage": stage, "index": i,
                                         "request": q.text(), "name": hx(q.name), "impl": a, "spec": v})
-            # correspondence with the Code model
-            if a != c:
+            # correspondence with the Code model (`unknown`: the model could not read the source here and predicts nothing)
+            if c == "unknown":
+                rep.count("model.no-prediction")
+            elif a != c:
                 rec["problems"].append({"kind": "model", "why": "reply class differs from the model", "stage": stage, "index": i, "request": q.text(),
                                         "name": hx(q.name) if q.name is not None else None, "impl": a, "code": c})
         nl = sum(1 for a in cls if a == "leak")
         if nl != nleak:
-            rec["problems"].append({"kind": "oracle" if nleak > nl else "model", "why": "%d RDB image(s) received, %d +FULLRESYNC" % (nleak, nl), "stage": stage})
+            rec["problems"].append({"kind": "oracle" if (nleak > nl or "unknown" in code) else "model", "why": "%d RDB image(s) received, %d +FULLRESYNC" % (nleak, nl), "stage": stage})
         if pushed and not nleak and not any(a == "leak" for a in cls):
             rec["problems"].append({"kind": "oracle", "why": "an unauthenticated connection received pushed data: %s" % [show_reply(p) for p in pushed][:3], "stage": stage})
-        if stage == "pipe" and state_after == "closing" and how not in ("closed",):
+        if stage == "pipe" and state_after == "closing" and how not in ("closed",) and "unknown" not in code:
             # QUIT: the connection is closed after the batch
             rec["problems"].append({"kind": "model", "why": "model says the connection closes after the batch, impl: %s" % how, "stage": stage})
         if stage == "pipe" and state_after != "closing" and how != "sentinel":
@@ -474,11 +509,11 @@ class C17:
             seq = list(pre) + [Req(b"GET", [b"c17:sess"]), Req(b"auth", [PASSWORD]), Req(b"SET", [b"c17:sess", b"v1"]), Req(b"GET", [b"c17:sess"]),
                                Req(b"AUTH", [b"wrong"]), Req(b"GET", [b"c17:sess"]), Req(b"DEL", [b"c17:sess"]), Req(b"PING", []), Req(b"QUIT", [])]
             for q in seq:
-                u.send_raw(q.wire())
                 try:
+                    u.send_raw(q.wire())
                     r = u.read_reply(2.0)
                     a = self.classify_frames([q], [r])[0][0]
-                except (Closed, TimeoutError, ProtocolError) as e:
+                except (Closed, OSError, ProtocolError) as e:
                     a = "closed:" + type(e).__name__
                 m = self.ask("frame %d %s" % (uid, q.line()))
                 c, v = canon_class(m.split(" # ")[0]), m.split(" # ")[1]
@@ -506,15 +541,19 @@ class C17:
 
 
 # ------------------------------------------------------------------------------------------ case generation
+PROBE = Req(b"GET", [b"c17:n"])       # benign: shows whether the connection got through the gate
+
+
 def states(r, tier):
-    """connection situations before the request under test: (tag, pre-steps, other connection authenticates)"""
+    """connection situations before the request under test: (tag, pre-steps, other connection authenticates).
+    Every failed AUTH is followed by a benign probe: whether it authenticated is settled BEFORE anything hostile is sent."""
     out = [("fresh", [], False), ("other-authed", [], True)]
     for tag, pw in WRONG_PASSWORDS:
-        out.append(("failed-auth:" + tag, [Req(b"AUTH", [pw])], False))
-    out.append(("failed-auth:two-args", [Req(b"AUTH", [b"default", PASSWORD])], False))
-    out.append(("failed-auth:no-args", [Req(b"AUTH", [])], False))
-    out.append(("failed-auth:non-bulk", [Req(b"AUTH", [None])], False))
-    out.append(("failed-auth:then-other-authed", [Req(b"auth", [PASSWORD[:-1]])], True))
+        out.append(("failed-auth:" + tag, [Req(b"AUTH", [pw]), PROBE], False))
+    out.append(("failed-auth:two-args", [Req(b"AUTH", [b"default", PASSWORD]), PROBE], False))
+    out.append(("failed-auth:no-args", [Req(b"AUTH", []), PROBE], False))
+    out.append(("failed-auth:non-bulk", [Req(b"AUTH", [None]), PROBE], False))
+    out.append(("failed-auth:then-other-authed", [Req(b"auth", [PASSWORD[:-1]]), PROBE], True))
     out.append(("after-ping", [Req(b"PING", [])], False))
     out.append(("after-refused", [Req(b"GET", [canary_key(0)]), Req(b"MULTI", [])], False))
     return out
@@ -523,6 +562,21 @@ def states(r, tier):
 def positions(q):
     ping, ping2 = Req(b"PING", []), Req(b"PING", [b"pp"])
     return [("alone", [q], 0), ("first", [q, ping, ping2], 0), ("middle", [ping, q, ping2], 1), ("last", [ping, ping2, q], 2)]
+
+
+def positions_ext(q):
+    """the same WRITE also carries failed AUTHs (wrong password, a proper prefix, empty, wrong arity, non-bulk) before the
+    target, or two targets in a row: anything a batch could remember from one frame to the next"""
+    ping = Req(b"PING", [])
+    wrong, prefix, empty = Req(b"AUTH", [b"wrong-password"]), Req(b"auth", [PASSWORD[:-1]]), Req(b"AUTH", [b""])
+    noargs, twoargs, nonbulk = Req(b"AUTH", []), Req(b"AUTH", [b"default", PASSWORD]), Req(b"AUTH", [None])
+    return [("auth-wrong;T", [wrong, q], 1), ("auth-wrong;T;ping", [wrong, q, ping], 1), ("auth-prefix;T", [prefix, q], 1),
+            ("auth-empty;T", [empty, q], 1), ("auth-noargs;T", [noargs, q], 1), ("auth-twoargs;T", [twoargs, q], 1),
+            ("auth-nonbulk;T;ping", [nonbulk, q, ping], 1), ("ping;auth-wrong;auth-noargs;T", [ping, wrong, noargs, q], 3),
+            ("T;T", [q, q], 1), ("T;auth-wrong;T", [q, wrong, q], 2), ("T;auth-wrong", [q, wrong], 0)]
+
+
+REPLICATION_LIKE = {b"SYNC", b"PSYNC", b"REPLCONF", b"MONITOR", b"SUBSCRIBE", b"PSUBSCRIBE", b"REPLICAOF", b"SLAVEOF"}
 
 
 def requests(c17, tier):
@@ -626,44 +680,130 @@ def main(tier, seed):
         rep.extra["names_in_dispatch_table"] = len(c17.names)
         rep.extra["requests"] = len(reqs)
         rep.extra["situations"] = len(sts)
-        for label, form, q in reqs:
-            if tier == "thorough":
-                use = sts
-            else:
-                use = sts[:2] + [sts[2 + r.below(len(sts) - 2)] for _ in range(3)]
-            for st_tag, pre, other in use:
-                for pos_tag, pipe, target in positions(q):
-                    rec = c17.run_case({"tag": "%s/%s/%s/%s" % (label, form, st_tag, pos_tag), "pre": pre, "other_auth": other, "pipe": pipe, "target": target})
-                    a = rec["impl"][-1]["classes"][target] if rec["impl"] and rec["impl"][-1]["classes"] else "unaligned"
-                    v = rec["spec"][-1]["verdicts"][target] if rec["spec"] else "?"
-                    ncls = label if label in c17.names or label.startswith("malformed") else "hostile:" + c17.ask("classify " + hx(q.name)) + ":" + hx(q.name[:6])
-                    rep.nontrivial((ncls, form, st_tag.split(":")[0], pos_tag, a.split(" ")[0], v))
-                    rep.count("verdict." + v)
-                    rep.count("situation." + st_tag.split(":")[0])
-                    if rec["problems"]:
-                        recs.append(rec)
-                    if len(rep.samples) < 4 and (pos_tag == "middle"):
-                        rep.sample({"case": rec["case"]["tag"], "impl": rec["impl"][-1]["classes"], "code": rec["code"][-1]["classes"], "spec": rec["spec"][-1]["verdicts"]})
-        # every wrong password, then the right one on the same connection; commands work; QUIT closes
-        for tag, pw in WRONG_PASSWORDS:
-            rec = c17.authenticated_session([Req(b"AUTH", [pw]), Req(b"GET", [canary_key(0)])])
+        budget = Budget()
+        # -- 1. only the exact password authenticates: decided first, with nothing hostile on the connection
+        recs += wrong_password_family(c17, budget)
+        # -- 2. every name x arguments x situation x position
+        if not budget.spent():
+            recs += matrix(c17, r, tier, sts, reqs, budget)
+        # -- 3. every wrong password, then the right one on the same connection; commands work; QUIT closes
+        if not budget.spent():
+            for tag, pw in WRONG_PASSWORDS:
+                rec = c17.authenticated_session([Req(b"AUTH", [pw]), PROBE])
+                budget.note(rec)
+                if rec["problems"]:
+                    recs.append(rec)
+            rec = c17.authenticated_session([])
             if rec["problems"]:
                 recs.append(rec)
-        rec = c17.authenticated_session([])
-        if rec["problems"]:
-            recs.append(rec)
-        if tier == "thorough":
-            recs += random_phase(c17, r, 4000, 600)
-            recs += split_phase(c17, r, 600)
-        else:
-            recs += random_phase(c17, r, 300, 60)
-            recs += split_phase(c17, r, 60)
+        if not budget.spent():
+            if tier == "thorough":
+                recs += random_phase(c17, r, 4000, 600)
+                recs += split_phase(c17, r, 600)
+            else:
+                recs += random_phase(c17, r, 300, 60)
+                recs += split_phase(c17, r, 60)
+        if budget.spent():
+            rep.extra["stopped_early"] = "after %d cases with oracle failures" % budget.n
         rep.traces_validated = rep.evaluations
         new, known, model = settle(c17, recs, findings)
         verdict(rep, ok, log, errs, c17, new, known, model, findings)
     finally:
         c17.close()
     return rep.finish()
+
+
+class Budget:
+    """the run stops early once enough cases have failed the oracle (each of them is a complete replay; going on
+    would only exercise a server that is known to be open)"""
+
+    def __init__(self, limit=25):
+        self.n, self.limit = 0, limit
+
+    def note(self, rec):
+        if any(p["kind"] == "oracle" for p in rec["problems"]):
+            self.n += 1
+
+    def spent(self):
+        return self.n >= self.limit
+
+
+def tclass(rec, target):
+    """reply class of the request under test ("stopped:<why>" when the case ended before the pipeline was sent)"""
+    if rec.get("stopped"):
+        return "stopped:" + rec["stopped"]
+    if not rec["impl"] or rec["impl"][-1]["stage"] != "pipe" or not rec["impl"][-1]["classes"]:
+        return "unaligned"
+    return rec["impl"][-1]["classes"][target]
+
+
+def wrong_password_family(c17, budget):
+    """every wrong password (all proper prefixes incl. the empty string, extensions, case changes, binary, ...), as AUTH / auth,
+    (a) alone in a write, followed by a benign probe in a later write; (b) in ONE write with the probe.  The AUTH must be
+    answered with an error and the probe with NOAUTH.  A failure here is reported as such, with this two-command replay."""
+    recs = []
+    ping = Req(b"PING", [])
+    variants = [(t, [pw]) for t, pw in WRONG_PASSWORDS] + [("two-args", [b"default", PASSWORD]), ("two-args-pw-first", [PASSWORD, b"x"]),
+                                                           ("no-args", []), ("non-bulk", [None]), ("pw-as-second", [b"", PASSWORD])]
+    for tag, args in variants:
+        for name in (b"AUTH", b"auth"):
+            for how, case in (("separate-writes", {"pre": [Req(name, args), PROBE], "pipe": [ping], "target": 0}),
+                              ("one-write", {"pre": [], "pipe": [Req(name, args), PROBE], "target": 0}),
+                              ("one-write-after-ping", {"pre": [], "pipe": [ping, Req(name, args), PROBE, ping], "target": 1})):
+                case.update({"tag": "wrong-password/%s/%s/%s" % (tag, name.decode(), how), "other_auth": False})
+                rec = c17.run_case(case)
+                budget.note(rec)
+                c17.rep.nontrivial(("wrong-password", tag, name, how, tclass(rec, case["target"]).split(" ")[0]))
+                c17.rep.count("wrong-password." + how)
+                if rec["problems"]:
+                    recs.append(rec)
+            if budget.spent():
+                return recs
+    return recs
+
+
+def matrix(c17, r, tier, sts, reqs, budget):
+    rep = c17.rep
+    recs = []
+    special = REPLICATION_LIKE | set(c17.pre_gate) | set(c17.guarded) | set(c17.unknown)
+    for label, form, q in reqs:
+        if tier == "thorough":
+            use = sts
+        else:
+            use = sts[:2] + [sts[2 + r.below(len(sts) - 2)] for _ in range(3)]
+        # positions: among PINGs always; in one write with failed AUTHs / doubled — for every replication-like name (and every
+        # spelling that the connection loop normalises to one) in all sampled situations, for the other names one sampled
+        # combination in quick, all of them on fresh connections in thorough
+        ext = positions_ext(q)
+        repl = q.kind == "cmd" and unhx(c17.ask("norm " + hx(q.name)).split(" ")[0]) in special
+        plan = []
+        for i, (st_tag, pre, other) in enumerate(use):
+            ps = list(positions(q))
+            if repl and (tier == "quick" or i < 2 or i % 4 == 2):
+                ps += ext
+            elif not repl and i < 2 and tier == "thorough":
+                ps += ext
+            elif not repl and i == 0:
+                ps.append(ext[r.below(len(ext))])
+            plan.append((st_tag, pre, other, ps))
+        for st_tag, pre, other, ps in plan:
+            for pos_tag, pipe, target in ps:
+                rec = c17.run_case({"tag": "%s/%s/%s/%s" % (label, form, st_tag, pos_tag), "pre": pre, "other_auth": other, "pipe": pipe, "target": target})
+                budget.note(rec)
+                a = tclass(rec, target)
+                v = rec["spec"][-1]["verdicts"][target] if rec["spec"] and rec["spec"][-1]["stage"] == "pipe" else "?"
+                ncls = label if label in c17.names or label.startswith("malformed") else "hostile:" + c17.ask("classify " + hx(q.name)) + ":" + hx(q.name[:6])
+                rep.nontrivial((ncls, form, st_tag.split(":")[0], pos_tag, a.split(" ")[0], v))
+                rep.count("verdict." + v)
+                rep.count("situation." + st_tag.split(":")[0])
+                rep.count("position." + ("among-pings" if ";" not in pos_tag else "same-write-as-failed-auth-or-doubled"))
+                if rec["problems"]:
+                    recs.append(rec)
+                if len(rep.samples) < 4 and pos_tag in ("middle", "auth-wrong;T;ping") and not rec.get("stopped"):
+                    rep.sample({"case": rec["case"]["tag"], "impl": rec["impl"][-1]["classes"], "code": rec["code"][-1]["classes"], "spec": rec["spec"][-1]["verdicts"]})
+                if budget.spent():
+                    return recs
+    return recs
 
 
 def split_phase(c17, r, n):
@@ -677,7 +817,7 @@ def split_phase(c17, r, n):
         total = sum(len(x.wire()) for x in pipe)
         cuts = sorted(set(r.range(1, total - 1) for _ in range(r.range(1, 3))))
         rec = c17.run_case({"tag": "split/%s/%s/%s" % (nb.decode("latin-1"), pos_tag, cuts), "pre": [], "other_auth": False, "pipe": pipe, "target": target, "cuts": cuts})
-        a = rec["impl"][-1]["classes"][target] if rec["impl"][-1]["classes"] else "unaligned"
+        a = tclass(rec, target)
         c17.rep.nontrivial(("split", nb, pos_tag, len(cuts), a.split(" ")[0]))
         if rec["problems"]:
             recs.append(rec)
@@ -694,7 +834,7 @@ def random_phase(c17, r, n_names, n_pw):
         q = Req(name, r.choice([[], [b"?", b"-1"], [canary_key(0)], [PASSWORD]]))
         pos_tag, pipe, target = r.choice(positions(q))
         rec = c17.run_case({"tag": "random-name/%s/%s" % (hx(name), pos_tag), "pre": [], "other_auth": r.chance(1, 4), "pipe": pipe, "target": target})
-        a = rec["impl"][-1]["classes"][target] if rec["impl"][-1]["classes"] else "unaligned"
+        a = tclass(rec, target)
         c17.rep.nontrivial(("random-name", c17.ask("classify " + hx(name)), a.split(" ")[0], pos_tag))
         if rec["problems"]:
             recs.append(rec)
@@ -714,9 +854,8 @@ def random_phase(c17, r, n_names, n_pw):
         if bytes(pw) == PASSWORD:
             continue
         q = Req(r.choice([b"AUTH", b"auth", b"Auth "]), [bytes(pw)])
-        follow = Req(b"GET", [canary_key(0)])
-        rec = c17.run_case({"tag": "random-password/%s" % hx(bytes(pw)), "pre": [], "other_auth": False, "pipe": [q, follow], "target": 0})
-        c17.rep.nontrivial(("random-password", k, (rec["impl"][-1]["classes"] or ["unaligned"])[0]))
+        rec = c17.run_case({"tag": "random-password/%s" % hx(bytes(pw)), "pre": [], "other_auth": False, "pipe": [q, PROBE], "target": 0})
+        c17.rep.nontrivial(("random-password", k, tclass(rec, 0).split(" ")[0]))
         if rec["problems"]:
             recs.append(rec)
     return recs
